@@ -130,7 +130,10 @@ Inductive op :=
 | OParts (v : nat) (mode : N)                    (* into_raw_parts / clone / from_raw_parts *)
 | OPlacement                                     (* storage alignment over all placements of the vector *)
 | OIterNth (ik : iterkind) (v : nat) (pat : list (bool * N))   (* Iterator::nth / nth_back calls *)
-| OLazyDown (depth : N) (v : nat) (idx : N).     (* vecs[v].at(idx).lazy_clone()^depth .downcast::<T>() *)
+| OLazyDown (depth : N) (v : nat) (idx : N)      (* vecs[v].at(idx).lazy_clone()^depth .downcast::<T>() *)
+| OCursorMax (a : api) (pat : list bool).        (* drain(usize::MAX-3..) of a zero-sized-element vector of length
+                                                    usize::MAX, consumed by pat, then leaked: the cursor at the very
+                                                    end of the index space *)
 
 (** ** Offering a value to push / insert *)
 
@@ -686,6 +689,16 @@ Definition exec (c : cfg) (o : op) : M world (N * list N) :=
       do bs <- elem_bytes c v idx;
       do x <- lazy_down c v bs;
       ret (0, [x])
+  | OCursorMax _ pat =>
+      let k0 := {| ci := usize_max - 3; ce := usize_max |} in
+      let fix go (pat : list bool) (k : cursor) : list N :=
+        match pat with
+        | [] => []
+        | f :: r =>
+            let '(oi, k') := if f then cur_next k else cur_next_back k in
+            (match oi with Some _ => 1 | None => 0 end) :: cur_len k' :: go r k'
+        end in
+      ret (0, cur_len k0 :: go pat k0)
   end.
 
 (** One step of a case: fresh event log, the given fuse; a panic is caught
